@@ -93,17 +93,31 @@ impl  ActiveTextParser {
         if let Some(open) = &self.open {
             if open.eq("'"){
                 let pos = ss.len();
-                for (i,c) in (&s[(pos+1)..]).chars().enumerate(){
-                    match c {
-                        ' ' | ',' => {
-                            self.open = Some("".into());
-                            let (new_ss,new_w)  = s.split_at(pos +i);
-                            ss = new_ss;
-                            work = new_w.into();
-                        },
-                        '\'' => break,
-                        _ => (),
-                    }
+                let rest = &s[(pos+1)..];
+                let mut head = rest.chars();
+                match (head.next(),head.next()) {
+                    // escaped char literal ('\n', '\''), the escaped character is not the closing one
+                    (Some('\\'),_) => {
+                        if let Some(tail) = s.get(pos+3..) { work = pad(3,tail); }
+                    },
+                    // char literal ('x', ' ', ',')
+                    (_,Some('\'')) => (),
+                    // lifetime
+                    _ => {
+                        for (i,c) in rest.chars().enumerate(){
+                            match c {
+                                ' ' | ',' => {
+                                    self.open = Some("".into());
+                                    // split in front of the blank, always behind the apostrophe
+                                    let (new_ss,new_w)  = s.split_at(pos+1+i);
+                                    ss = new_ss;
+                                    work = new_w.into();
+                                },
+                                '\'' => break,
+                                _ => (),
+                            }
+                        }
+                    },
                 }
             }
         }
